@@ -82,7 +82,7 @@ func TestC01(t *testing.T) {
 
 func TestC02(t *testing.T) {
 	p := &world.Profile{Name: "lock", MinGroups: 1, MaxGroups: 2, Fleet: 1, Auto: 1, MaxInit: 6, SmallGraces: true, Steps: 30,
-		Weights: with(baseWeights(), "advance", 10, "scan", 14, "targetUtil", 10, "cordon", 3, "taintExt", 4, "restart", 1, "fleetPlan", 1, "register", 3, "reconcile", 2, "asgEdit", 2, "drainAndForce", 2, "clearPods", 2, "zeroOut", 1)}
+		Weights: with(baseWeights(), "advance", 10, "scan", 14, "targetUtil", 10, "cordon", 3, "taintExt", 4, "restart", 1, "fleetPlan", 1, "register", 3, "reconcile", 2, "asgEdit", 2, "drainAndForce", 2, "clearPods", 2, "zeroOut", 1, "idleBlip", 2)}
 	col := newCollector(t, "C02", "history check; non-trivial = a scan inside a cool-down window for which the unlocked decision would have been an action, or a scan within 1s of the end of a cool-down; distinct by (offset class, would-be action, fleet)")
 	historyCheck(t, &historyOpts{prop: "C02", profile: p, col: col, classify: func(w *world.World, rec *world.ScanRecord) []string {
 		var keys []string
@@ -154,7 +154,7 @@ func TestC03(t *testing.T) {
 func TestC04(t *testing.T) {
 	p := &world.Profile{Name: "maxclamp", MinGroups: 1, MaxGroups: 2, Fleet: 1, Auto: 1, MaxInit: 8, SmallGraces: true, Steps: 25,
 		FaultFocus: "cloud",
-		Weights: with(baseWeights(), "targetUtil", 12, "asgEdit", 2, "fleetPlan", 1, "fault", 3, "drainAndForce", 2, "storm", 3)}
+		Weights:    with(baseWeights(), "targetUtil", 12, "asgEdit", 2, "fleetPlan", 1, "fault", 3, "drainAndForce", 2, "storm", 3)}
 	col := newCollector(t, "C04", "history check; non-trivial = a scan with a cloud increase request (or a refused one) where max_nodes differs from the cloud maximum or the need exceeds the headroom; distinct by (relation of max_nodes to cloud max, clamped, fleet, recovery, tainted-present)")
 	historyCheck(t, &historyOpts{prop: "C04", profile: p, col: col, classify: func(w *world.World, rec *world.ScanRecord) []string {
 		var keys []string
@@ -195,7 +195,7 @@ func TestC04(t *testing.T) {
 
 func TestC05History(t *testing.T) {
 	p := &world.Profile{Name: "scaleup", MinGroups: 1, MaxGroups: 1, Fleet: 1, Auto: 1, MaxInit: 10, SmallGraces: true, Steps: 20,
-		Weights: with(baseWeights(), "targetUtil", 14, "taintExt", 5, "cordon", 1, "restart", 2, "fleetPlan", 1, "drainAndForce", 1, "killNode", 2, "storm", 2, "asgEdit", 2, "zeroOut", 2)}
+		Weights: with(baseWeights(), "targetUtil", 14, "taintExt", 5, "cordon", 1, "restart", 2, "fleetPlan", 1, "drainAndForce", 1, "killNode", 2, "storm", 2, "asgEdit", 2, "zeroOut", 2, "sizeSeenOutOfBounds", 2)}
 	col := newCollector(t, "C05", "end-to-end: scans in the scale-up band with equal-size nodes; nodes brought into service = untaints + (requested target - real desired); non-trivial = strict scale-up band with need >= 1; distinct by (need, reused, requested, clamped, bound resource)")
 	historyCheck(t, &historyOpts{prop: "C05", profile: p, col: col, classify: func(w *world.World, rec *world.ScanRecord) []string {
 		var keys []string
@@ -215,7 +215,7 @@ func TestC05History(t *testing.T) {
 func TestC06(t *testing.T) {
 	p := &world.Profile{Name: "bands", MinGroups: 1, MaxGroups: 2, Fleet: 1, Auto: 1, Default: 1, Starve: 1, MaxAge: 1, MaxInit: 10, SmallGraces: true, Steps: 25,
 		FaultFocus: "cloud",
-		Weights: with(baseWeights(), "targetUtil", 16, "scan", 12, "taintExt", 2, "cordon", 1, "restart", 1, "schedule", 3, "asgEdit", 2, "fault", 2, "fleetPlan", 1, "resizeNode", 2, "launch", 3, "starveAfterScaleUp", 2)}
+		Weights:    with(baseWeights(), "targetUtil", 16, "scan", 12, "taintExt", 2, "cordon", 1, "restart", 1, "schedule", 3, "asgEdit", 2, "fault", 2, "fleetPlan", 1, "resizeNode", 2, "launch", 3, "starveAfterScaleUp", 2)}
 	col := newCollector(t, "C06", "history check; every unlocked, in-bounds, fault-free scan is judged against the exact-rational band; non-trivial = band with a non-empty expected action or an edge class; distinct by (band set, edge, clamp binds, tainted present, trigger)")
 	historyCheck(t, &historyOpts{prop: "C06", profile: p, col: col, classify: func(w *world.World, rec *world.ScanRecord) []string {
 		var keys []string
@@ -257,7 +257,7 @@ func minI(a, b int) int {
 func TestC07(t *testing.T) {
 	p := &world.Profile{Name: "reuse", MinGroups: 1, MaxGroups: 2, Fleet: 1, Auto: 1, MaxInit: 10, SmallGraces: true, Steps: 25, Stale: true,
 		FaultFocus: "node-writes",
-		Weights: with(baseWeights(), "targetUtil", 12, "taintExt", 8, "fault", 4, "asgEdit", 1, "cordon", 2, "clearNode", 2, "drainAndForce", 2, "setCreated", 1, "storm", 3)}
+		Weights:    with(baseWeights(), "targetUtil", 12, "taintExt", 8, "fault", 4, "asgEdit", 1, "cordon", 2, "clearNode", 2, "drainAndForce", 2, "setCreated", 1, "storm", 3, "staleWindow", 3)}
 	col := newCollector(t, "C07", "history check; scans that untaint or request capacity; non-trivial = 0 < tainted pool < need (partial reuse), creation-time ties in the pool, a failed untaint, or force removal earlier in the same scan; distinct by those flags and pool/need sizes")
 	historyCheck(t, &historyOpts{prop: "C07", profile: p, col: col, classify: func(w *world.World, rec *world.ScanRecord) []string {
 		var keys []string
@@ -296,7 +296,7 @@ func TestC07(t *testing.T) {
 func TestC08(t *testing.T) {
 	p := &world.Profile{Name: "oldest", MinGroups: 1, MaxGroups: 1, Auto: 1, MaxAge: 1, MaxInit: 14, SmallGraces: true, Steps: 12, Stale: true, MaxBelowASG: 1,
 		FaultFocus: "node-writes",
-		Weights: map[string]int{"scan": 10, "targetUtil": 8, "fault": 3, "launch": 2, "taintExt": 1, "cordon": 1, "advance": 1, "removeTaint": 2, "setCreated": 3, "annotate": 2}}
+		Weights:    map[string]int{"scan": 10, "targetUtil": 8, "fault": 3, "launch": 2, "taintExt": 1, "cordon": 1, "advance": 1, "removeTaint": 2, "setCreated": 3, "annotate": 2}}
 	col := newCollector(t, "C08", "history check; scale-down scans; non-trivial = 0 < tainted < untainted with >= 2 distinct creation times and a view order that is not already oldest-first; also ties and failed writes; distinct by (k, U, distinct times, sorted, ties, failed, stale)")
 	historyCheck(t, &historyOpts{prop: "C08", profile: p, col: col, classify: func(w *world.World, rec *world.ScanRecord) []string {
 		var keys []string
@@ -347,7 +347,7 @@ func temptation(w *world.World, rec *world.ScanRecord, gr *world.GroupRec, n *v1
 
 func TestC09(t *testing.T) {
 	p := &world.Profile{Name: "cordon", FaultFocus: "node-writes", MinGroups: 1, MaxGroups: 2, Fleet: 0, Auto: 1, MaxInit: 8, SmallGraces: true, Steps: 30, Stale: true,
-		Weights: with(baseWeights(), "cordon", 8, "taintExt", 5, "advance", 8, "annotate", 1, "clearNode", 2, "fault", 2, "staleWindow", 2)}
+		Weights: with(baseWeights(), "cordon", 8, "taintExt", 5, "advance", 8, "annotate", 1, "clearNode", 2, "fault", 2, "staleWindow", 2, "leftoverNode", 2)}
 	col := newCollector(t, "C09", "history check; non-trivial = an acting (unlocked, in-bounds) scan that sees a cordoned node which would otherwise have been acted on: grace-expired, force-tainted and empty, tainted under a scale-up, or oldest untainted-looking under a scale-down; distinct by (temptation, action of the scan)")
 	historyCheck(t, &historyOpts{prop: "C09", profile: p, col: col, classify: func(w *world.World, rec *world.ScanRecord) []string {
 		var keys []string
@@ -385,7 +385,7 @@ func TestC09(t *testing.T) {
 
 func TestC10(t *testing.T) {
 	p := &world.Profile{Name: "annot", MinGroups: 1, MaxGroups: 2, Fleet: 0, Auto: 1, MaxInit: 8, SmallGraces: true, Steps: 30, Stale: true,
-		Weights: with(baseWeights(), "annotate", 8, "taintExt", 6, "advance", 9, "clearNode", 3, "cordon", 1, "asgEdit", 2, "asgDesired", 2, "staleWindow", 2, "fault", 1)}
+		Weights: with(baseWeights(), "annotate", 8, "taintExt", 6, "advance", 9, "clearNode", 3, "cordon", 1, "asgEdit", 2, "asgDesired", 2, "staleWindow", 2, "fault", 1, "leftoverNode", 2)}
 	col := newCollector(t, "C10", "history check; non-trivial = a reaping scan that sees an annotated node satisfying the removal condition, with or without other removable nodes; distinct by (temptation, value class, others removed, empty)")
 	historyCheck(t, &historyOpts{prop: "C10", profile: p, col: col, classify: func(w *world.World, rec *world.ScanRecord) []string {
 		var keys []string
@@ -555,7 +555,7 @@ func TestC15History(t *testing.T) {
 
 func TestC19History(t *testing.T) {
 	p := &world.Profile{Name: "removal", MinGroups: 1, MaxGroups: 2, Auto: 1, MaxInit: 8, SmallGraces: true, Steps: 30, Stale: true,
-		Weights: with(baseWeights(), "taintExt", 8, "advance", 9, "detach", 3, "fault", 3, "clearNode", 3, "asgEdit", 2, "asgDesired", 2, "gcNodes", 1, "drainAndForce", 2, "storm", 2, "forceBusy", 1, "staleWindow", 3)}
+		Weights: with(baseWeights(), "taintExt", 8, "advance", 9, "detach", 3, "fault", 3, "clearNode", 3, "asgEdit", 2, "asgDesired", 2, "gcNodes", 1, "drainAndForce", 2, "storm", 2, "forceBusy", 1, "staleWindow", 3, "leftoverNode", 2)}
 	col := newCollector(t, "C19", "history half: ordering of cloud terminations and node deletions; non-trivial = a removal batch of >= 2 with a failure or foreign node inside it, two batches in one scan, a not-in-group exit, or an ASG-minimum refusal; distinct by those flags and sizes")
 	historyCheck(t, &historyOpts{prop: "C19", profile: p, col: col, classify: func(w *world.World, rec *world.ScanRecord) []string {
 		var keys []string
@@ -582,7 +582,9 @@ func TestC19History(t *testing.T) {
 	}})
 }
 
-func containsStr(s, sub string) bool { return len(sub) > 0 && len(s) >= len(sub) && (stringIndex(s, sub) >= 0) }
+func containsStr(s, sub string) bool {
+	return len(sub) > 0 && len(s) >= len(sub) && (stringIndex(s, sub) >= 0)
+}
 
 func stringIndex(s, sub string) int {
 	for i := 0; i+len(sub) <= len(s); i++ {
@@ -597,7 +599,7 @@ func stringIndex(s, sub string) int {
 
 func TestC20(t *testing.T) {
 	p := &world.Profile{Name: "chaos", DupTaints: true, MinGroups: 1, MaxGroups: 3, Dry: 1, Fleet: 1, Auto: 1, Default: 1, Starve: 1, MaxAge: 1, MaxInit: 6, SmallGraces: true, Steps: 30, Stale: true,
-		Weights: with(baseWeights(), "oddNode", 5, "oddPod", 5, "fault", 8, "taintExt", 6, "killNode", 2, "detach", 1, "asgEdit", 1, "fleetPlan", 2, "advance", 8, "gcNodes", 1, "staleWindow", 2, "zeroOut", 1)}
+		Weights: with(baseWeights(), "oddNode", 5, "oddPod", 5, "fault", 8, "taintExt", 6, "killNode", 2, "detach", 1, "asgEdit", 1, "fleetPlan", 2, "advance", 8, "gcNodes", 1, "staleWindow", 2, "zeroOut", 1, "tinyThenZero", 2)}
 	col := newCollector(t, "C20", "chaos histories: malformed nodes/pods, absurd taint values, API and cloud failures at drawn call indices; non-trivial = a scan in which an injected failure was hit, or an odd object was part of a processed in-bounds group; distinct by (fault kinds hit, odd kinds present, outcome)")
 	historyCheck(t, &historyOpts{prop: "C20", profile: p, col: col, classify: func(w *world.World, rec *world.ScanRecord) []string {
 		var keys []string
@@ -636,7 +638,6 @@ func sortStrings(s []string) {
 	}
 }
 
-
 // ---------------------------------------------------------------- C13 (end-to-end half)
 
 func TestC13History(t *testing.T) {
@@ -664,7 +665,6 @@ func TestC13History(t *testing.T) {
 	}})
 }
 
-
 // ---------------------------------------------------------------- C18 (history half: no lock after a failed fleet scale-up)
 
 func TestC18History(t *testing.T) {
@@ -689,7 +689,6 @@ func TestC18History(t *testing.T) {
 	}})
 }
 
-
 // ---------------------------------------------------------------- C14 (end-to-end half)
 
 func TestC14History(t *testing.T) {
@@ -710,7 +709,6 @@ func TestC14History(t *testing.T) {
 		return nil
 	}})
 }
-
 
 // TestC20Dry: the chaos profile with the first group always in dry mode (its in-memory taint
 // trackers are state that only dry mode exercises) and nodes that come and go.
